@@ -23,6 +23,7 @@ RULE = (
     "single message line, batch line of 0..4 members mixing valid and invalid items, stall window (the child stops reading its stdin while k in 0..130 outgoing messages pile up and 1..3 lines arrive, then reads again); after every line the delivered messages and the bytes written back are compared "
     "with the reference for the current mode; non-trivial (decision) = version within 45 days of the cutoff or differing from it in exactly one field; "
     "(transport) = a batch after a mode change or a batch mixing valid and invalid members; distinct = distinct string / distinct sequence"
+    "; added in rounds 6-7 of the seeded changes: batches whose answered ids have per-request streams registered"
 )
 ASSUMPTIONS = [
     "fixed-width dddd-dd-dd strings order lexicographically exactly as dates do",
